@@ -10,7 +10,8 @@ THEOREMS = ["Mmtk.Sched.parked_count_exact", "Mmtk.Sched.pool_count_exact", "Mmt
             "Mmtk.Sched.last_parker_sleeps_only_when_idle", "Mmtk.Sched.no_stranded_packet",
             "Mmtk.Sched.all_parked_no_work", "Mmtk.Sched.gc_never_sleeps_partial", "Mmtk.Sched.designated_not_forgotten",
             "Mmtk.Sched.stranded_with_mutator_push", "Mmtk.Sched.reachable_inv", "Mmtk.Sched.step_invA",
-            "Mmtk.Sched.step_invB", "Mmtk.Sched.step_invC"]
+            "Mmtk.Sched.step_invB", "Mmtk.Sched.step_invC",
+            "Mmtk.Sched.gc_completes_under_fairness", "Mmtk.Sched.request_leads_to_goal", "Mmtk.Sched.all_workers_park_eventually", "Mmtk.Sched.gc_in_progress_completes", "Mmtk.Sched.live_hypotheses_satisfiable", "Mmtk.Sched.last_park_eventually", "Mmtk.Sched.gc_done_changes", "Mmtk.Sched.gc_request_completes", "Mmtk.Sched.Stuck.false"]
 # which failure keys belong to this property
 KEYS = S.COMMON_KEYS + ("sched:parked-count",
         "sched:park-with-work", "sched:request", "sched:request-flag", "sched:all-parked-wrong")
